@@ -336,7 +336,7 @@ func (f *For) String() string {
 		out.WriteString(" }")
 		return out.String()
 	}
-	if f.init == nil {
+	if f.init == nil && f.post == nil {
 		out.WriteString("for ")
 		out.WriteString(f.condition.String())
 		out.WriteString(" { ")
@@ -344,11 +344,19 @@ func (f *For) String() string {
 		out.WriteString(" }")
 		return out.String()
 	}
-	// Full style for loop
+	// Full style for loop: each of the three parts may be missing
 	out.WriteString("for ")
-	out.WriteString(f.init.String() + "; ")
-	out.WriteString(f.condition.String() + "; ")
-	out.WriteString(f.post.String())
+	if f.init != nil {
+		out.WriteString(f.init.String())
+	}
+	out.WriteString("; ")
+	if f.condition != nil {
+		out.WriteString(f.condition.String())
+	}
+	out.WriteString("; ")
+	if f.post != nil {
+		out.WriteString(f.post.String())
+	}
 	out.WriteString(" { ")
 	out.WriteString(f.consequence.String())
 	out.WriteString(" }")
